@@ -138,11 +138,32 @@ class Body:
     self._defs = None
     self._reach = {}
     self._constlocals = None
+    # coroutine bodies: (variant index, field index) of the state -> source variable name (from debuginfo)
+    self.covars = {}
+    if self.is_coroutine:
+      for x in d.get('dbg', []):
+        pr = x['p'].get('p') or []
+        vi = [e['vi'] for e in pr if isinstance(e, dict) and 'vi' in e]
+        fs = [e['f'] for e in pr if isinstance(e, dict) and 'f' in e]
+        if len(vi) == 1 and len(fs) >= 1 and len(pr) <= 3:
+          self.covars[(vi[0], fs[-1] if len(fs) == 1 else fs[0])] = x['n']
 
   # ---------------- basic structure
 
   def local_name(self, l):
     return self.locals[l]['n']
+
+  def covar_of(self, place):
+    """for a coroutine body: (name, remaining projections) if the place is a saved local of the coroutine state"""
+    if not self.covars or place is None:
+      return None
+    pr = place.get('p') or []
+    for i, e in enumerate(pr):
+      if isinstance(e, dict) and 'vi' in e and i + 1 < len(pr) and isinstance(pr[i + 1], dict) and 'f' in pr[i + 1]:
+        nm = self.covars.get((e['vi'], pr[i + 1]['f']))
+        if nm is not None:
+          return nm, pr[i + 2:]
+    return None
 
   def local_ty(self, l):
     return self.locals[l]['ty']
@@ -843,6 +864,10 @@ def describe_operand(body, op, depth=0):
 
 
 def describe_place(body, p, depth=0):
+  cv = body.covar_of(p)
+  if cv is not None:
+    rest = tuple(str(e.get('n', e['f'])) for e in cv[1] if isinstance(e, dict) and 'f' in e)
+    return ('var', cv[0]) + (('.'.join(rest),) if rest else ())
   l = p['l']
   projs = [e for e in (p.get('p') or [])]
   fields = tuple(str(e.get('n', e['f'])) if isinstance(e, dict) and 'f' in e else (e if isinstance(e, str) else ('v:' + e['v'] if 'v' in e else '[]')) for e in projs)
@@ -1022,6 +1047,10 @@ def origins(body, op, passthrough=None, depth=0, _seen=None, fields=(), named_te
     place = op_place(op)
     if place is None:
       return [Origin('unknown', body)]
+  cv = body.covar_of(place)
+  if cv is not None:
+    rest = tuple(str(e.get('n', e['f'])) for e in cv[1] if isinstance(e, dict) and 'f' in e)
+    return [Origin('var', body, local=None, name=cv[0], fields=rest + tuple(fields))]
   l = place['l']
   pf = tuple(f for f in _proj_fields(place.get('p')) if not f.startswith('v:')) + tuple(fields)
   key = (l, pf)
